@@ -12,7 +12,8 @@ undecodable reply fails the request).
 `waiting_owned` — the ownership invariant itself (`WaitingOwned`, an executable predicate of the
 model) — is NOT proved as an unbounded theorem here: it is re-evaluated by the model driver on every
 state of every validated trace (`!waiting-not-owned`), and `terminal_once_at_quiescence_partial`
-takes it as its explicit hypothesis. Everything else is proved for every schedule.
+takes it as its explicit hypothesis. Everything else (`terminal_once`, `terminal_accounted`,
+`put_quorum_sound`, the clamping rule) is proved for every schedule.
 -/
 namespace Litep2pVerif.Props.C16
 open Litep2pVerif Litep2pVerif.Kad.Coordinator
@@ -126,6 +127,30 @@ example :
       s.started = [0] ∧ s.events = [(0, true)] := by
   decide
 
+/-- **A put / announcement reports success only with the (clamped) quorum of send successes.**
+Every success of the send phase recorded in any reachable state (a `SuccessRec` is logged exactly when
+a tracker emits its success event) counted at least `clampQuorum quorum nTargets` *distinct* peers,
+and every counted peer had an executor result of a success kind (`SendSuccess`, `AssumeSendSuccess` or
+`ReadSuccess`) for this query and peer, handled while the tracker was waiting for that peer.
+(The recorded future kind `k` is that of the PUT_VALUE/ADD_PROVIDER future unless a lookup-phase
+request to a fan-out target was still in flight when the lookup finished, which `engineStep` excludes
+only at the moment of the fan-out — the engine contract "found peers have answered", C15.) -/
+theorem put_quorum_sound (s : State) (h : Reachable s) (r : SuccessRec) (hr : r ∈ s.successLog) :
+    clampQuorum r.quorum r.nTargets ≤ r.counted.length ∧ r.counted.Nodup ∧
+    ∀ p ∈ r.counted, ∃ k, (r.q, p, k) ∈ s.sendResults :=
+  (QuorumInv.reachable h).log r hr
+
+/-- Non-vacuity: a put to two given peers with quorum N(2): both are dialed, sent the record (one answers,
+one stays silent until the read timeout), the operation succeeds and the record lists both. -/
+example :
+    let s := run {} [.cmd (.putToPeers 1 (.n 2)),
+      .engine (.lookupDone 0 true [1, 2]) [⟨false, .started, false⟩, ⟨false, .started, false⟩],
+      .established 1 [true], .established 2 [true], .subOpened 0, .subOpened 1,
+      .result ⟨1, 0, .putEat⟩ .readOk, .result ⟨2, 0, .putEat⟩ .assumeOk, .engine (.trackerDone 0) []]
+    s.events = [(0, true)] ∧ (s.successLog.map (·.counted)) = [[2, 1]] ∧
+      s.sendResults = [(0, 2, .putEat), (0, 1, .putEat)] := by
+  decide
+
 /-- **The clamping rule, as coded.** `One ⇒ 1`, `N(n) ⇒ min(n, max(len, 1))`, `All ⇒ max(len, 1)`
 with `len` the number of fan-out targets: the required number of successes never exceeds the requested
 `n`, is at least 1 (for `n ≥ 1`), and is clamped to the number of discovered peers. -/
@@ -154,6 +179,7 @@ theorem settle_covers_timeouts :
 #print axioms terminal_once
 #print axioms terminal_accounted
 #print axioms terminal_once_at_quiescence_partial
+#print axioms put_quorum_sound
 #print axioms quorum_clamp_rule
 #print axioms settle_covers_timeouts
 
